@@ -104,7 +104,6 @@ Proof.
 Qed.
 
 (* ------------------------------------------------------------------ whole programs *)
-Definition covers (P0 : path) (L : list rule) (d : diag) : bool := is_prefix P0 (fst d) && named L (snd d).
 
 Theorem ignore_exact_next_line t P0 n0 k c L :
   get_prog P0 t = Some n0 ->
